@@ -3,7 +3,8 @@
 # Applies each patch to /repo, runs the checks, undoes it. Do not use /repo while this runs.
 cd /verif
 for d in seeded/*/; do
-  ids=$(python3 -c "import json;print(' '.join(json.load(open('$d/meta.json'))['checks_run']['caught_by']))")
+  [ -f $d/meta.json ] || continue
+  ids=$(python3 -c "import json,os;c=json.load(open('$d/meta.json'))['checks_run']['caught_by'];print(' '.join(c[:1] if os.environ.get('SEEDALL_FIRST_ONLY') else c))")
   echo "### $(basename $d) -> $ids"
   ./seedtest.sh /verif/$d/patch.diff $ids
 done
